@@ -18,7 +18,7 @@ RULE = ("each case: a CHK file (k<=4, N<=6, segment size from {8k,16k,64,100}, 1
         "Non-trivial = >=2 reads touching a common segment, or any pause/stop event that took effect; distinct by whole case.")
 LEVEL_TEXT = "Random search over read ranges, consumer flow-control scripts and delivery orders against the byte-slice reference."
 ASSUMPTIONS = ["consumers follow the IPushProducer contract: resumeProducing only after pauseProducing, nothing after stopProducing", "honest servers (faults are C02/C03/C46)"]
-REQUIRED_CLASSES = ["concurrent", "overlap-same-segment", "pause-in-flight", "stop", "past-eof", "at-eof", "literal", "size-none", "cross-segment"]
+REQUIRED_CLASSES = ["guess<real", "concurrent", "overlap-same-segment", "pause-in-flight", "stop", "past-eof", "at-eof", "literal", "size-none", "cross-segment"]
 BUDGET = {"quick": 900, "thorough": 7200}
 
 
@@ -59,7 +59,7 @@ def cases(draw):
         ln = {"none": None, "pos": max(0, pos() - off) or 1, "small": draw(st.integers(1, 20)), "huge": size * 3 + 7, "zero": 0}[ln]
         ev = draw(st.lists(st.tuples(st.sampled_from(["w", "s"]), st.integers(0, 25), st.sampled_from(["pause", "pause", "resume", "stop"])).map(list), max_size=4))
         reads.append({"off": off, "len": ln, "events": ev})
-    return {"k": k, "n": n, "seg": seg, "size": size, "fill": draw(st.integers(0, 3)), "reads": reads,
+    return {"k": k, "n": n, "seg": seg, "size": size, "fill": draw(st.integers(0, 3)), "reads": reads, "guess": draw(st.sampled_from([None, None, 16, 50, 200, 1000])),
             "sched": draw(st.lists(st.integers(0, 12), max_size=draw(st.sampled_from([0, 20, 100]))))}
 
 
@@ -80,6 +80,12 @@ def run_case(case, ctx):
             ctx.fail("upload-failed", "set-up upload failed: %r" % (r,))
             return
         cap = r[1].get_uri()
+        # the reader guesses the segment size from its own default maximum before it has seen the real one; uploaders may be configured with larger or smaller
+        # segments than the reader's default, so both 'guess > real' and 'guess < real' are legitimate starting points for a fresh node
+        from allmydata.immutable.downloader.node import DownloadNode
+        if case.get("guess"):
+            DownloadNode.default_max_segment_size = case["guess"]       # class attribute provided for exactly this purpose; restored below
+            classes.add("guess<real" if case["guess"] < min(seg, size) else "guess>=real")
         reader = g.add_client()
         node = reader.nodemaker.create_from_cap(cap)
         g.sched.choices, g.sched.ci = list(case["sched"]), 0
@@ -192,6 +198,9 @@ def run_case(case, ctx):
             classes.add("literal")
     finally:
         g.stop()
+        from allmydata.immutable.downloader.node import DownloadNode as _DN
+        from allmydata.interfaces import DEFAULT_IMMUTABLE_MAX_SEGMENT_SIZE as _D
+        _DN.default_max_segment_size = _D
     nt = overlap or any(c.effects for c in cons)
     ctx.note(sig=repr(sorted(case.items())), nontrivial=nt, classes=sorted(classes),
              sample={"k": k, "n": n, "seg": seg, "size": size, "reads": case["reads"], "schedule": case["sched"][:16],
